@@ -182,6 +182,9 @@ def instances(tier):
     sp = spec('volume', (1, 1, 2), ((1,), (), ()), rational=False)
     out.append(inst('%s ins-rem multi uvw' % spec_name(sp), h_insert_remove_multi, timeout=1800, sp=sp, dirs=(0, 1, 2)))
     out.append(inst('%s ins-rem multi vw method' % spec_name(sp), h_insert_remove_multi, timeout=1800, sp=sp, dirs=(1, 2), via='method'))
+    if quick:
+        add(spec('volume', (3, 1, 1), ((), (), (1,)), rational=False), 0, 2, 2, timeout=1200)
+        add(spec('volume', (1, 3, 2), ((), (1,), ()), rational=False), 1, 3, 3, timeout=1200)
     if not quick:
         for rational in (False, True):
             sp = spec('volume', (3, 1, 1), ((), (), (1,)), rational=rational)
